@@ -353,8 +353,8 @@ def parse_cases(rng, n, tier):
         out.append((join_tables([real['parser-testsuite-DSDT.aml']]), 'real'))
     for g in gens[:20]:
         out.append((join_tables(g), 'generated'))
-    big_budget = {'quick': 40, 'thorough': 1500, 'search': 100}[tier]      # mutations of the 8.6 KB DSDT
-    big_agree = {'quick': 1, 'thorough': 40, 'search': 0}[tier]           # ... of which with model agreement (13 s each)
+    big_budget = {'quick': 40, 'thorough': 800, 'search': 100}[tier]      # mutations of the 8.6 KB DSDT
+    big_agree = {'quick': 1, 'thorough': 20, 'search': 0}[tier]           # ... of which with model agreement (13 s each)
     while len(out) < n:
         r = rng.random()
         if r < 0.12:
